@@ -53,7 +53,7 @@ DEFAULT_KNOBS: Dict[str, Any] = {
     "swarm": True,
 }
 
-EXC_NAMES = ["ValueError", "KeyError", "RuntimeError", "SimError", "ZeroDivisionError"]
+EXC_NAMES = ["ValueError", "KeyError", "RuntimeError", "SimError", "ZeroDivisionError", "SimBadStr"]
 BASE_EXC_NAMES = ["KeyboardInterrupt", "SystemExit", "SimBaseError"]
 HOOKS_WORKER = ["pre_execute", "on_error", "post_execute", "post_save"]
 HOOKS_CLIENT = ["pre_send", "post_send"]
